@@ -494,3 +494,12 @@ Theorem C03_dispute_burns_are_ledger_events fx l b :
   - b = nominal_delta fx l (LDisputeBurn b) /\ - b = nominal_delta fx l (LDustBurn b).
 Proof. exact (SupplyFrameProofs.DisputeFrame.burns_are_ledger_events fx l b). Qed.
 Print Assumptions C03_dispute_burns_are_ledger_events.
+
+(* a completed BeginBlocker of the mint model and the provision operation of the escrow machine move the same amounts *)
+Theorem C03_begin_block_is_escrow_mint fx m now p t q m' s s' :
+  begin_block fx m now = BBOk p t q m' -> Escrow.estep s (Escrow.EMint p) = Some s' ->
+  Escrow.e_supply s' = Escrow.e_supply s + p /\
+  Escrow.supply_delta s (Escrow.EMint p) = minted_of (begin_block fx m now) /\
+  Escrow.e_tbr s' = Escrow.e_tbr s + t /\ Escrow.e_feecoll s' = Escrow.e_feecoll s + q.
+Proof. exact (SupplyFrameProofs.MintFrame.begin_block_is_escrow_mint fx m now p t q m' s s'). Qed.
+Print Assumptions C03_begin_block_is_escrow_mint.
